@@ -445,6 +445,32 @@ def extract(repo):
     for a in live_arms:
         lean.append(f"  | .{a} => [" + ", ".join(lean_ev(x) for x in flat(full[a])) + "]")
     lean.append("")
+    # `Handler::with_persist`: enter, run the request, prepare; a refused request with pending mutations aborts
+    wp = re.search(r"fn\s+with_persist\s*\(", hsrc)
+    if not wp:
+        raise ExtractError("handler.rs: Handler::with_persist not found")
+    wb = hsrc.find("{", hsrc.find(")", wp.end()))
+    d, e = 0, wb
+    while e < len(hsrc):
+        if hsrc[e] == "{":
+            d += 1
+        elif hsrc[e] == "}":
+            d -= 1
+            if d == 0:
+                break
+        e += 1
+    wtxt = re.sub(r"#\[cfg[^\]]*\]\s*debug!\([^;]*;", "", hsrc[wb + 1:e])
+    wtxt = re.sub(r"\s+", "", re.sub(r'"(?:\\.|[^"\\])*"', '""', wtxt))
+    wp_form = (r"letnode=self\.node\(\);letpersister=node\.get_persister\(\);persister\.enter\(\)\.map_err\(\|e\|\{.*?\}\)\?;"
+               r"letresult=f\(&\*node\);letmuts=persister\.prepare\(\);"
+               r"matchresult\{Ok\(\(\)\)=>Ok\(muts\),Err\(e\)=>\{if!muts\.is_empty\(\)\{panic!\(\"\"\);\}Err\(e\)\}\}")
+    if not re.fullmatch(wp_form, wtxt):
+        raise ExtractError("Handler::with_persist no longer has the form enter / f / prepare / Ok => muts / Err => panic if stranded: " + wtxt[:300])
+    lean.append("/-- `Handler::with_persist` (handler.rs) has, in the current source, exactly the form")
+    lean.append("    `enter()?; let result = f(node); let muts = prepare(); match result { Ok => Ok(muts), Err(e) => { if !muts.is_empty() { panic! } Err(e) } }`")
+    lean.append("    (= `Props/C10.withPersist`); the extractor fails closed on any other text -/")
+    lean.append("def withPersistForm : Bool := true")
+    lean.append("")
     cond_fn = [(n, conditional_persists(full[n])) for _, n, _ in rows]
     cond_arm = [(a, conditional_persists(full[a])) for a in live_arms]
     lean.append("/-- persist calls inside a block that does not enclose an earlier mutation they cover (persisted component,")
